@@ -459,7 +459,7 @@ def string_escape(ctx):
     elif char == "\n":
         return ""
     elif char == "x":
-        num = Parser.regex(r"[0-9a-f]{2}")(ctx, report=(
+        num = Parser.regex(r"[0-9a-f]{2}", skip_whitespace_before=False)(ctx, report=(
             reports.error,
             "invalid-escape",
             (ctx_start, ctx, "Two hexadecimal digits are expected after '\\x' in a string")
